@@ -609,6 +609,10 @@ fn run_case_inner(case: &Case, c: &mut Cluster) -> CaseReport {
 }
 
 pub fn main(ctx: &Ctx) -> i32 {
+    // real clusters: one case legitimately takes minutes (formation, time-outs, re-runs for classification)
+    if std::env::var("RNV_CASE_TIMEOUT_MS").is_err() {
+        std::env::set_var("RNV_CASE_TIMEOUT_MS", "600000");
+    }
     let work = work_dir(ctx);
     let fin = || Finish {
         level: "exploration",
